@@ -687,9 +687,14 @@ class Node:
             grp_metadata = grp.create_group('metadatabundle')
             grp_metadata.attrs.create("emd_group_type","metadatabundle")
             for k,v in items:
-                # add each Metadata instance
-                self._metadata[k].name = k
-                self._metadata[k].to_h5(grp_metadata)
+                # add each Metadata instance, stored under its key;
+                # the caller's instance keeps its own name
+                name = v.name
+                v.name = k
+                try:
+                    v.to_h5(grp_metadata)
+                finally:
+                    v.name = name
 
         # return
         return grp
